@@ -35,17 +35,18 @@ class Undecided(Exception):
 
 def tags_near(lines, ln):
     """tags of the clause / assertion that starts on generated line ln (1-based): the tag comment sits on
-    the last line of the clause, i.e. the first line (from ln on) whose code part ends in `,` or `;`."""
-    k = ln
-    while k - 1 < len(lines) and k < ln + 25:
-        t = TAG_RE.findall(lines[k - 1])
+    the last line of the clause, i.e. the first line (from ln on) on which all brackets opened since ln
+    are closed again and whose code part ends in `,` or `;`."""
+    k, depth = ln, 0
+    while k - 1 < len(lines) and k < ln + 40:
         code = lines[k - 1].split("//")[0].rstrip()
-        if t:
-            return t
-        if code.endswith(",") or code.endswith(";"):
-            return []
+        depth += sum(code.count(c) for c in "([{") - sum(code.count(c) for c in ")]}")
+        if depth <= 0 and (code.endswith(",") or code.endswith(";")):
+            return TAG_RE.findall(lines[k - 1])
+        if depth < 0:
+            return TAG_RE.findall(lines[k - 1])
         k += 1
-    return []
+    return TAG_RE.findall(lines[ln - 1]) if ln - 1 < len(lines) else []
 
 
 def run(unit, repo, build_dir, timeout=900, rlimit=None, extra_args=None):
